@@ -20,6 +20,9 @@ let run (op : string) (ty : string) (a : string array) : string res =
     else (base, "") in
   ignore form;
   let dyn = (ty = "D") in
+  (* the receiver of the copying swap_adjacent after the call: the model is functional, the receiver is the argument *)
+  if op = "swap_adjacent.receiver" then
+    ok (s_lut (p_lut a.(0))) else
   match base with
   (* constructors *)
   | "one" -> rmap s_lut (d_one (p_nat a.(0)))
@@ -77,6 +80,30 @@ let run (op : string) (ty : string) (a : string array) : string res =
   | "next_step" ->
      let l = p_lut a.(0) in
      rmap (fun (t, okb) -> s_lut { nv = l.nv; tbl = t } ^ "|" ^ s_bool okb) (next_inplace l.nv l.tbl)
+  | "all_functions_after" ->
+     (* the whole run, then [extra] more calls: the number of items, then what each further call returns *)
+     let n = p_nat a.(0) and extra = int_of_string a.(1) in
+     (match d_all_functions n with
+      | Ok st ->
+         let st = ref st and cnt = ref 0 and fin = ref false and bad = ref None in
+         while not !fin && !bad = None do
+           (match iter_next !st with
+            | Ok (Some _, st') -> incr cnt; st := st'
+            | Ok (None, st') -> fin := true; st := st'
+            | PanicAlways -> bad := Some PanicAlways
+            | PanicDebug -> bad := Some PanicDebug)
+         done;
+         let items = ref [string_of_int !cnt] in
+         for _ = 1 to extra do
+           (match iter_next !st with
+            | Ok (Some l, st') -> items := s_lut l :: !items; st := st'
+            | Ok (None, st') -> items := "none" :: !items; st := st'
+            | PanicAlways -> bad := Some PanicAlways
+            | PanicDebug -> bad := Some PanicDebug)
+         done;
+         (match !bad with Some PanicAlways -> PanicAlways | Some _ -> PanicDebug | None -> ok (String.concat ";" (List.rev !items)))
+      | PanicAlways -> PanicAlways
+      | PanicDebug -> PanicDebug)
   | "all_functions" ->
      (* first k items, then whether the iterator is exhausted right after them *)
      let n = p_nat a.(0) and k = int_of_string a.(1) in
@@ -230,6 +257,8 @@ let run (op : string) (ty : string) (a : string array) : string res =
 let observe (op : string) (_ty : string) (a : string array) (expected : string) : string option =
   let base = match String.index_opt op '.' with Some i when i > 1 -> String.sub op 0 i | _ -> op in
   match base with
+  (* written by the harness only when a borrowed operand came back changed: the model's operands never change *)
+  | "operand_changed" -> Some "unchanged"
   | "random" ->
      if expected = "panic" then Some "panic" else
      let l = p_lut expected in
